@@ -12,10 +12,14 @@
    position list against the flattened values yields; that broadcast itself is C03).
    REPEAT along an axis (rank >= 2): C13_repeat_axis — the result's axis has the sum of the counts as its length and
    its entry k repeats the input's entry src reps k (src walks the counts), everything else unchanged.
-   NOT YET PROVED (checked by the correspondence run): insert along an axis; repeat with no axis (flat) and on rank-1
-   arrays as array-level statements. *)
+   REPEAT with no axis: C13_repeat_flat_scalar — one count k emits every element of the flattened array k consecutive
+   times (the stretch of the count to the array's shape is inside the theorem); C13_repeat_flat_counts — one count per
+   element of a rank-1 array emits element i count_i times.
+   NOT YET PROVED (checked by the correspondence run): repeat along axis 0 of a rank-1 array as an array-level statement.
+   insert along an axis is outside the property's text (it speaks of flat positions) and is checked as a model/code
+   correspondence only. *)
 From Coq Require Import Sorted.
-From ArrRs Require Import Index Axis Axis_proofs Broadcast_proofs Reduce Along_proofs Edit Edit_proofs Delete_proofs Broadcast Insert_proofs Repeat_proofs.
+From ArrRs Require Import Index Axis Axis_proofs Broadcast_proofs Reduce Along_proofs Edit Edit_proofs Delete_proofs Broadcast Insert_proofs Repeat_proofs Repeat_flat.
 
 Theorem C13_trim : forall (A : Type) (p : A -> bool) l,
   let t := drop_while p (rev (drop_while p (rev l))) in
@@ -91,6 +95,18 @@ Theorem C13_insert_flat : forall (T : Type) (d : T) (a values : arr T) idx pr,
   Forall (fun p => fst p <= len a) P ->
   insert_flat d a idx values = Ok (mk (insert_spec d (elems a) P) [length (insert_spec d (elems a) P)]).
 Proof. exact @insert_flat_spec. Qed.
+
+Theorem C13_repeat_flat_scalar : forall (T : Type) (dflt : T) (a : arr T) k,
+  wf a -> shape a <> [] -> pos_shape (shape a) ->
+  repeat_arr dflt a [k] None = Ok (mk (flat_map (fun x => repeat x k) (elems a)) [length (elems a) * k]).
+Proof. exact @repeat_flat_scalar. Qed.
+
+Theorem C13_repeat_flat_counts : forall (T : Type) (dflt : T) (a : arr T) reps,
+  wf a -> reps <> [] -> shape a = [length reps] ->
+  repeat_arr dflt a reps None =
+    Ok (mk (flat_map (fun p => repeat (fst p) (snd p)) (combine (elems a) reps))
+           [length (flat_map (fun p => repeat (fst p) (snd p)) (combine (elems a) reps))]).
+Proof. exact @repeat_flat_counts. Qed.
 
 Example C13_insert_nonvacuous :
   insert_spec 0%Z [0;1;2;3]%Z [(1,10%Z); (4,12%Z); (1,11%Z)] = [0;10;11;1;2;3;12]%Z /\
